@@ -40,7 +40,7 @@ CONSTANTS EPs,            \* entry points explored in this run
 
 Outcomes == {"error", "ignored", "accepted"}
 
-AllEPs == {"station.ingest", "station.wrap", "transport.params", "regproc", "api", "dnsreg", "responder",
+AllEPs == {"station.ingest", "station.wrap", "transport.params", "dtls.connect", "regproc", "api", "dnsreg", "responder",
            "msgformat", "rdatatxt"}
 
 \* ------------------------------------------------------------------ field classes
@@ -136,6 +136,11 @@ TPTransportC == {"min", "obfs4", "prefix", "dtls"}
 DstParamsC   == {"parsed", "nil", "typednil", "foreign", "int0"}
 SeedC        == {"len16", "empty", "nil"}
 
+\* the connecting transport's dial with the parameters a registration can carry (full product)
+DPhantomC == {"v4", "v6"}
+DTTypeC   == {"dtls", "other"}
+DPUrlC    == {"dtls", "none"}
+
 \* first flight on a phantom connection (full product)
 WTransportC == {"min", "prefix", "obfs4"}
 RegsC       == {"same", "none", "other", "noparams"}
@@ -159,14 +164,16 @@ Dom(e) == CASE e = "station.ingest"   -> WrapperDom @@ RRDom @@ C2SDom
             [] e = "responder"        -> DnsDom
             [] e = "transport.params" -> [transport |-> TPTransportC, libver |-> LibverC, purl |-> PUrlC,
                                           pbytes |-> PBytesC, dstparams |-> DstParamsC, seed |-> SeedC]
+            [] e = "dtls.connect"     -> [phantom |-> DPhantomC, ttype |-> DTTypeC, purl |-> DPUrlC, pbytes |-> PBytesC]
             [] e = "station.wrap"     -> [transport |-> WTransportC, regs |-> RegsC, dst |-> DstC, pid |-> PidC,
                                           flight |-> FlightC]
             [] e = "msgformat"        -> [fn |-> MFFnC, len |-> MFLenC, prefix |-> MFPrefixC]
             [] e = "rdatatxt"         -> [chunks |-> TxtChunksC, last |-> TxtLastC, size |-> TxtSizeC]
 
-FullProduct(e) == e \in {"transport.params", "station.wrap", "msgformat", "rdatatxt"}
+FullProduct(e) == e \in {"transport.params", "dtls.connect", "station.wrap", "msgformat", "rdatatxt"}
 FullRows(e) == CASE e = "transport.params" -> [transport : TPTransportC, libver : LibverC, purl : PUrlC, pbytes : PBytesC,
                                                 dstparams : DstParamsC, seed : SeedC]
+                 [] e = "dtls.connect"     -> [phantom : DPhantomC, ttype : DTTypeC, purl : DPUrlC, pbytes : PBytesC]
                  [] e = "station.wrap"     -> [transport : WTransportC, regs : RegsC, dst : DstC, pid : PidC, flight : FlightC]
                  [] e = "msgformat"        -> [fn : MFFnC, len : MFLenC, prefix : MFPrefixC]
                  [] e = "rdatatxt"         -> [chunks : TxtChunksC, last : TxtLastC, size : TxtSizeC]
@@ -253,7 +260,9 @@ Guards == {
   "msgformat.len",             \* Remove*Format: prefix length against len(p)
   "rdatatxt.len",              \* DecodeRDataTXT: len(p) < n
   "responder.noise.len",       \* craftResponse: the Noise library rejects short messages (no slicing in the responder)
-  "dnsreg.payload_nil"         \* processRequest reads RegistrationPayload through a nil-safe getter
+  "dnsreg.payload_nil",        \* processRequest reads RegistrationPayload through a nil-safe getter
+  "dtls.connect.addr_getters", \* dtls.Connect reads SrcAddr4 / SrcAddr6 through nil-safe getters
+  "dnat.addr_family"           \* dnat.AddEntry: both addresses of one family, lengths checked by the serialiser
 }
 HangGuards == {"dns.ptr_limit"}
 
@@ -285,6 +294,8 @@ Trigger(g, e, r) ==
     [] g = "rdatatxt.len"          -> e = "rdatatxt" /\ (r.last = "overrun" \/ r.size = "s0")
     [] g = "responder.noise.len"   -> e = "responder" /\ DnsEnvelopeOK(r) /\ r.lenprefix \in {"ok", "smaller"} /\ r.noise \in {"empty", "len31", "len32", "len47"}
     [] g = "dnsreg.payload_nil"    -> e = "dnsreg" /\ r.payload = "absent"
+    [] g = "dtls.connect.addr_getters" -> e = "dtls.connect" /\ r.ttype = "dtls" /\ r.pbytes \in {"dtls_noaddrs", "empty", "nil"}
+    [] g = "dnat.addr_family"      -> e = "dtls.connect" /\ r.ttype = "dtls" /\ r.pbytes \in {"dtls_badaddrs", "dtls_noaddrs"}
     [] OTHER                       -> FALSE
 
 Triggers(e, r) == {g \in Guards : Trigger(g, e, r)}
